@@ -344,6 +344,15 @@ func (cw *chunkWriter) writeHeader(p []byte) {
 		w.closeAfterReply = true
 	}
 
+	// If the client wanted a 100-continue but we never sent it to
+	// them, don't reuse this connection: we can't know whether the
+	// next bytes on the wire are the request body or the next
+	// request (the client need not send a body that was never asked
+	// for).  See golang.org/issue/11549.
+	if ecr, ok := w.req.Body.(*expectContinueReader); ok && !ecr.WroteContinue() {
+		w.closeAfterReply = true
+	}
+
 	// Per RFC 2616, we should consume the request body before
 	// replying, if the handler hasn't already done so.  But we
 	// don't want to do an unbounded amount of reading here for
